@@ -65,3 +65,8 @@ check("C13", "model_checking",
   "Atomic activities; runtime thread count subsumed (any number of workers yields a subset of these interleavings); bounds 2-3 processes, d <= 2/3, 1 eviction; workflows whose reload is a recorded C12 finding are not in the alphabet.",
   "stateless model checking of the implementation: deviation-bounded replay DFS over multi-process interleavings with a per-process projection compared against the solo outcome set (differential)",
   "DESIGN.md section 4 C13")
+check("C14", "exploration",
+  "Bounded-exhaustive input enumeration on the real engine: 17 boundary atoms, every array and object of width <= 2 over them and width-1 containers of those (about 1.9*10^3 values) are each sent through six routes of a real process (script global, $get, comparison inside a script, return from a code act, $set, step condition) and read back from the terminal event; every template string of <= 3 segments over {literal, {{a}}, {{ b }}, {{a+1}}, literal} for two typings of a and b is substituted by the engine into message parameters and compared with a reference substitution. The property quantifies over inputs only; the space is finite by construction and covered completely.",
+  "Sequential, one schedule (the property has no schedule quantifier); numbers compared by value.",
+  "bounded-exhaustive enumeration of inputs executed on the implementation, compared with a reference (identity / reference substitution)",
+  "DESIGN.md section 4 C14")
